@@ -19,6 +19,7 @@ type VP9Frame struct {
 	H       vp9hdr.Header `json:"h"`
 	BodyLen int           `json:"body_len"` // random bytes after the generated header prefix
 	Seed    uint64        `json:"seed"`
+	Toggle  bool          `json:"toggle,omitempty"` // the public FlexibleMode field is flipped before this frame; the picture id keeps running
 }
 
 func (f *VP9Frame) bytes() ([]byte, int) {
@@ -71,8 +72,14 @@ func checkC12Pay(r *run, c *VP9PayCase) (CaseInfo, error) {
 	} else {
 		ci.class("non-flexible")
 	}
+	flex := c.Flexible
 	for fi := range c.Frames {
 		f := &c.Frames[fi]
+		if f.Toggle {
+			flex = !flex
+			p.FlexibleMode = flex
+			ci.class("mode-toggled-mid-stream")
+		}
 		frame, _ := f.bytes()
 		orig := clone(frame)
 		pkts := p.Payload(c.MTU, frame)
@@ -85,7 +92,7 @@ func checkC12Pay(r *run, c *VP9PayCase) (CaseInfo, error) {
 		key := !f.H.NonKey && !f.H.ShowExistingFrame
 		var cat []byte
 		for pi, pk := range pkts {
-			what := fmt.Sprintf("frame %d (%d bytes, mtu %d, flexible=%v, key=%v, profile %d, cs %d) packet %d/%d %s", fi, len(frame), c.MTU, c.Flexible, key, f.H.Profile, f.H.ColorSpace, pi, len(pkts), hx(pk))
+			what := fmt.Sprintf("frame %d (%d bytes, mtu %d, flexible=%v, key=%v, profile %d, cs %d) packet %d/%d %s", fi, len(frame), c.MTU, flex, key, f.H.Profile, f.H.ColorSpace, pi, len(pkts), hx(pk))
 			if len(pk) > int(c.MTU) {
 				return ci, failf("%s: %d bytes exceed the MTU", what, len(pk))
 			}
@@ -116,13 +123,13 @@ func checkC12Pay(r *run, c *VP9PayCase) (CaseInfo, error) {
 			if vp.IsPartitionHead(pk) != first || (&codecs.VP9PartitionHeadChecker{}).IsPartitionHead(pk) != first {
 				return ci, failf("%s: IsPartitionHead=%v", what, vp.IsPartitionHead(pk))
 			}
-			if d.F != c.Flexible {
+			if d.F != flex {
 				return ci, failf("%s: F=%v", what, d.F)
 			}
 			if !d.I || !d.M || d.PictureID != id || vp.PictureID != id {
 				return ci, failf("%s: I=%v M=%v picture id %d (VP9Packet %d), want the 15-bit id %d", what, d.I, d.M, d.PictureID, vp.PictureID, id)
 			}
-			if !c.Flexible && !f.H.ShowExistingFrame {
+			if !flex && !f.H.ShowExistingFrame {
 				if d.P != f.H.NonKey {
 					return ci, failf("%s: P=%v for a frame with non-key=%v", what, d.P, f.H.NonKey)
 				}
@@ -148,7 +155,7 @@ func checkC12Pay(r *run, c *VP9PayCase) (CaseInfo, error) {
 			ci.class("multi-packet")
 			ci.Nontrivial = true
 		}
-		if key && !c.Flexible && (f.H.Profile >= 1 || f.H.ColorSpace == 7) {
+		if key && !flex && (f.H.Profile >= 1 || f.H.ColorSpace == 7) {
 			ci.class("key-frame-profile>=1-or-rgb")
 			ci.Nontrivial = true
 		}
@@ -377,9 +384,10 @@ func genVP9PayCase(t *rapid.T) *VP9PayCase {
 	c.InitialID = uint16(biased(t, "initial", 0, 65535, 0, 1, 127, 128, 32766, 32767, 32768, 65535))
 	nf := rapid.IntRange(1, 4).Draw(t, "nframes")
 	minMTU := 4
+	toggles := rapid.IntRange(0, 5).Draw(t, "toggles") == 0
 	for i := 0; i < nf; i++ {
-		f := VP9Frame{H: genVP9Hdr(t, 0), Seed: rapid.Uint64().Draw(t, "seed")}
-		if !c.Flexible && (!f.H.NonKey || f.H.ShowExistingFrame) {
+		f := VP9Frame{H: genVP9Hdr(t, 0), Seed: rapid.Uint64().Draw(t, "seed"), Toggle: toggles && genBool(t, "toggle")}
+		if (!c.Flexible || toggles) && (!f.H.NonKey || f.H.ShowExistingFrame) {
 			minMTU = 12
 		}
 		c.Frames = append(c.Frames, f)
@@ -479,7 +487,7 @@ func genVP9DescCase1(t *rapid.T) *VP9DescCase {
 	return c
 }
 
-const ruleC12 = "payloader: 1-4 frames whose uncompressed header prefix is written bit by bit by an independent writer (profiles 0-3 with reserved bit, show_existing_frame, key/non-key, all colour spaces incl. RGB, subsampling bits, size-1 in [0,65534]^2, garbage in reserved and trailing bits) followed by 0-5000 random bytes (one case in 60: a frame of 65520-200000 bytes), flexible and non-flexible mode, MTU >= 4 (>= 12 when a non-flexible key frame occurs) biased to the thresholds, initial picture id biased to 0,127,128,32766,32767,65535; every packet is decoded by VP9Packet (a fresh one per packet, or one for the whole stream) and by an independent RFC 9628 descriptor parser: concatenation = frame, B/E placement, IsPartitionHead=B, F=mode, 15-bit id constant per frame and +1 per frame mod 2^15, <= MTU, non-flexible P=non-key and V/Y/width/height on the first packet of a key frame. descriptor: reference-built descriptors (I 7/15 bit, L, F with I, 1-3 P_DIFF, SS with N_S 0-7, Y, G, N_G 0-255 with R 0-3; SID 0-4 since pion supports 5 spatial layers by design) + payload, all truncations rejected; half of the cases decode 1-2 other descriptors into the same VP9Packet first. header: vp9.Header.Unmarshal equals the writer's fields and rejects every short byte prefix. Non-trivial = >=2 packets, non-flexible key frame with profile>=1 or RGB, SS with picture groups, >=2 P_DIFF, truncation, key-frame header; distinct = FNV-64 of the JSON case"
+const ruleC12 = "payloader: 1-4 frames whose uncompressed header prefix is written bit by bit by an independent writer (profiles 0-3 with reserved bit, show_existing_frame, key/non-key, all colour spaces incl. RGB, subsampling bits, size-1 in [0,65534]^2, garbage in reserved and trailing bits) followed by 0-5000 random bytes (one case in 60: a frame of 65520-200000 bytes), flexible and non-flexible mode (one case in six flips the public FlexibleMode field between frames), MTU >= 4 (>= 12 when a non-flexible key frame occurs) biased to the thresholds, initial picture id biased to 0,127,128,32766,32767,65535; every packet is decoded by VP9Packet (a fresh one per packet, or one for the whole stream) and by an independent RFC 9628 descriptor parser: concatenation = frame, B/E placement, IsPartitionHead=B, F=mode, 15-bit id constant per frame and +1 per frame mod 2^15, <= MTU, non-flexible P=non-key and V/Y/width/height on the first packet of a key frame. descriptor: reference-built descriptors (I 7/15 bit, L, F with I, 1-3 P_DIFF, SS with N_S 0-7, Y, G, N_G 0-255 with R 0-3; SID 0-4 since pion supports 5 spatial layers by design) + payload, all truncations rejected; half of the cases decode 1-2 other descriptors into the same VP9Packet first. header: vp9.Header.Unmarshal equals the writer's fields and rejects every short byte prefix. Non-trivial = >=2 packets, non-flexible key frame with profile>=1 or RGB, SS with picture groups, >=2 P_DIFF, truncation, key-frame header; distinct = FNV-64 of the JSON case"
 
 func TestC12(t *testing.T) {
 	r := begin(t, "C12", "exploration", ruleC12)
